@@ -148,6 +148,7 @@ var kwPool = []string{"server", "acl", "http-request", "http-response", "use-ser
 var tokPool = []string{"server", "acl", "http-request", "http-response", "use-server", "mode", "option",
 	"tcp-request", "timeout", "stick-table", "default-server", "serv", "servers", "SERVER", "Server",
 	"http-req", "\"server\"", "server#", "server,", "no", "#", "http-request-x", "http", "use_backend", "*"}
+
 // blanks put in front of a token: the six ASCII ones, and what only Unicode calls white
 // space or does not show at all (NBSP, NEL, ideographic space, BOM, zero width space),
 // alone or after ASCII blanks -- annotation values are arbitrary UTF-8
@@ -384,7 +385,7 @@ func corpus() []input {
 		// must not become the keyword in the written configuration either
 		{Kind: "pipeline", Keywords: k("server"),
 			Services: []svcObj{{Name: "svc1"}},
-			Ingress: []ingObj{{Name: "ing1", Snippet: bp("\u00a0server evil 10.0.0.1:8080 #A1_0\n \u3000server evil2 10.0.0.2:8080 #A1_1"), Rules: []c1819.Rule{{Host: "h1.local", Path: "/", Service: "svc1", Port: 8080}}}}},
+			Ingress:  []ingObj{{Name: "ing1", Snippet: bp("\u00a0server evil 10.0.0.1:8080 #A1_0\n \u3000server evil2 10.0.0.2:8080 #A1_1"), Rules: []c1819.Rule{{Host: "h1.local", Path: "/", Service: "svc1", Port: 8080}}}}},
 		{Kind: "updater", Keywords: k("server"), Adds: ing("\u0085server evil 10.0.0.1:8080\n\t\u00a0 server x")},
 		// pipeline: service and ingress snippets on one backend, and a TCP service snippet
 		{Kind: "pipeline", Keywords: k("server"),
